@@ -667,4 +667,5 @@ def save_multiple_uverskyPlot2(
         legendOn,
         xLim,
         yLim,
-        fontSize)
+        fontSize,
+        saveFormat)
